@@ -2,4 +2,5 @@ import Cgm.Lemmas.AuditCmd
 import Cgm.Props.C15
 import Cgm.Props.C15b
 import Cgm.Props.C15c
+import Cgm.Props.C15d
 #audit_namespace Cg.C15
